@@ -182,11 +182,17 @@ def run(tier, seed):
     res = Result("C14", tier, seed)
     work = Work("C14")
     try:
-        ok, blog = coq_build(["props/C14.vo", "props/C14link.vo", "corr/C14corr.vo", "corr/C14head.vo"])
+        ok, blog = coq_build(["props/C14.vo", "props/C14link.vo", "props/C14ctype.vo", "corr/C14corr.vo", "corr/C14head.vo"])
         proofs_ok, pa = proof_obligations(work, res, "C14.v", ok, blog)
         n1, names1 = res.coverage["obligations"], res.coverage["theorems"]
         d1 = res.coverage["discharged"]
         ok2, pa2 = proof_obligations(work, res, "C14link.v", ok, blog)     # monitor-of-model link theorems
+        n2, names2, d2 = res.coverage["obligations"], res.coverage["theorems"], res.coverage["discharged"]
+        ok3, pa3 = proof_obligations(work, res, "C14ctype.v", ok, blog)    # what event_stream_of means
+        ok2 = ok2 and ok3
+        pa2 += pa3
+        res.coverage.update({"obligations": n2 + res.coverage["obligations"], "discharged": d2 + res.coverage["discharged"],
+                             "theorems": names2 + res.coverage["theorems"]})
         proofs_ok = proofs_ok and ok2
         pa += pa2
         res.coverage.update({"obligations": n1 + res.coverage["obligations"], "discharged": d1 + res.coverage["discharged"],
